@@ -377,18 +377,22 @@ def observe_auth(events: list[dict], ops: list[dict], order: str = "AB", fresh: 
                 return Provider
 
             form = e["f"]
+            opt = e.get("k", "default")
+            kw: dict = {}
+            if opt in ("number", "keyed_number"):
+                kw["refresh_interval"] = 60
+            if opt in ("none", "keyed_none"):
+                kw["refresh_interval"] = None
+            if opt.startswith("keyed"):
+                kw["cache_by_key"] = lambda case, context: context.operation.label
             if form == "register":
-                apply_chain(storage(e["s"]).register(), e["chain"])(make_provider())
+                apply_chain(storage(e["s"]).register(**kw), e["chain"])(make_provider())
             elif form == "call":
-                apply_chain(storage(e["s"])(), e["chain"])(make_provider())
-            elif form == "keyed":
-                apply_chain(storage(e["s"])(cache_by_key=lambda case, context: context.operation.label), e["chain"])(make_provider())
-            elif form == "nocache":
-                apply_chain(storage(e["s"])(refresh_interval=None), e["chain"])(make_provider())
+                apply_chain(storage(e["s"])(**kw), e["chain"])(make_provider())
             elif form == "requests":
                 apply_chain(storage(e["s"]).set_from_requests(MarkerAuth(pid)), e["chain"])
             elif form == "apply":
-                apply_chain(schema.auth(make_provider()), e["chain"])(test_function)
+                apply_chain(schema.auth(make_provider(), **kw), e["chain"])(test_function)
             else:
                 raise ValueError(form)
         cases = _draw_all(st_, schemas, order, {"auth_storage": auths.AuthStorageMark.get(test_function)})
@@ -407,6 +411,137 @@ def observe_auth(events: list[dict], ops: list[dict], order: str = "AB", fresh: 
         return out
     finally:
         glob.unregister()
+
+
+# ---------------------------------------------------------------------------------------------------
+# concurrent generation (spec/HooksConc.tla): a schedule of the model is forced on two real threads
+# ---------------------------------------------------------------------------------------------------
+def observe_conc(sched: dict, ops: list[dict], wait: float = 3.0) -> dict:
+    """Two threads generate a case each, for two different operations of one (newly loaded) schema A.  Thread 1 is parked
+    inside an unfiltered `before_generate_<park container>` hook - i.e. after its draw has started and before the hooks of that
+    container are applied - until thread 2 has started its own draw; thread 2 then waits until thread 1 is done.  The observed
+    hook (`<kind>_<container>` with the schedule's filter chain) records which operation `context.operation` pointed to and
+    writes a marker into the data.  Returns per thread: operation of the case, marker / call seen, operations seen."""
+    import threading
+
+    st_ = _setup(ops)
+    schema = st_["schemathesis"].openapi.from_dict(st_["raws"]["A"])
+    entries = st_["idx"]["A"]  # (index, path, METHOD)
+    label_to_op = {"%s %s" % (m, p): i + 1 for i, p, m in entries}
+    t1_parked, t2_started, t1_done = threading.Event(), threading.Event(), threading.Event()
+    synced: set = set()
+    park_name = "before_generate_" + sched["parkContainer"]
+
+    def park(context, strategy):
+        name = threading.current_thread().name
+        if name == "c19-t1" and name not in synced:
+            synced.add(name)
+            t1_parked.set()
+            t2_started.wait(wait)
+        return strategy
+
+    def second(context, strategy):
+        name = threading.current_thread().name
+        if name == "c19-t2" and name not in synced:
+            synced.add(name)
+            t2_started.set()
+            t1_done.wait(wait)
+        return strategy
+
+    if park_name == "before_generate_path_parameters":
+        def both(context, strategy):
+            return second(context, park(context, strategy))
+        both.__name__ = park_name
+        schema.hook(both)
+    else:
+        second.__name__ = "before_generate_path_parameters"
+        schema.hook(second)
+        park.__name__ = park_name
+        schema.hook(park)
+    calls: list = []  # (thread name, operation index context.operation pointed to)
+    name = "%s_%s" % (sched["kind"], sched["container"])
+    key = "m1"
+
+    def record(context):
+        calls.append((threading.current_thread().name, label_to_op.get(context.operation.label, 0)))
+
+    def mark(value):
+        return dict(value, **{key: "1"}) if isinstance(value, dict) else {key: "1"}
+
+    if sched["kind"] == "map":
+        def observed(context, value):
+            record(context)
+            return mark(value)
+    elif sched["kind"] == "filter":
+        def observed(context, value):
+            record(context)
+            return True
+    elif sched["kind"] == "flatmap":
+        def observed(context, value):
+            record(context)
+            return st_["st"].just(mark(value))
+    else:
+        def observed(context, strategy):
+            record(context)
+            return strategy.map(mark)
+    observed.__name__ = name
+    apply_chain(schema.hook, sched["chainDef"])(observed)
+    results: dict = {}
+    errors: list = []
+
+    def worker(tname: str, op_index: int) -> None:
+        try:
+            _, path, method = entries[op_index - 1]
+            strategy = schema[path][method].as_strategy()
+            got: list = []
+
+            @st_["given"](strategy)
+            @st_["settings"]
+            def collect(case):
+                got.append(case)
+
+            collect()
+            results[tname] = got[-1]
+        except BaseException as exc:
+            errors.append("%s: %s: %s" % (tname, type(exc).__name__, exc))
+        finally:
+            if tname == "c19-t1":
+                t1_done.set()
+
+    th1 = threading.Thread(target=worker, args=("c19-t1", sched["ops"][0]), name="c19-t1")
+    th2 = threading.Thread(target=worker, args=("c19-t2", sched["ops"][1]), name="c19-t2")
+    th1.start()
+    forced = t1_parked.wait(wait)
+    th2.start()
+    th1.join(30)
+    th2.join(30)
+    if errors or len(results) != 2:
+        raise RuntimeError("concurrent generation failed: %s" % (errors or "thread did not finish"))
+    threads = []
+    for tname in ("c19-t1", "c19-t2"):
+        case = results[tname]
+        ctxs = [op for who, op in calls if who == tname]
+        if sched["kind"] == "filter":
+            applied = 1 if ctxs else 0
+        else:
+            value = getattr(case, sched["container"])
+            applied = 1 if value is not None and hasattr(value, "keys") and key in value else 0
+        threads.append({"op": label_to_op["%s %s" % (case.operation.method.upper(), case.operation.path)], "applied": applied, "ctxs": ctxs})
+    return {"chain": sched["chain"], "threads": threads, "forced": bool(forced and t2_started.is_set())}
+
+
+def conc_disagreements(sched: dict, obs: dict) -> set[tuple[int, str]]:
+    out: set = set()
+    for t, (th, ex) in enumerate(zip(obs["threads"], sched["expect"]), 1):
+        if th["applied"] != ex["applied"]:
+            out.add((t, "spurious" if th["applied"] else "missing"))
+        if any(c != th["op"] for c in th["ctxs"]):
+            out.add((t, "foreign-context"))
+    return out
+
+
+def _work_conc(item: str) -> dict:
+    return observe_conc(json.loads(item), _CAT["ops"])
 
 
 # ---------------------------------------------------------------------------------------------------
@@ -494,16 +629,22 @@ def auth_verdicts(case: dict, obs: list[int]) -> list[tuple[int, str]]:
 def auth_signature(case: dict, o: int, kind: str, obs: list[int]) -> str:
     regs = [e for e in case["events"] if e["ev"] == "areg"]
     ops = _CAT.get("ops") or []
-    tw = _twin(ops, o) if ops else 0
-    if tw and any(r[o - 1] != r[tw - 1] and regs[p]["s"] == "global" for p, r in enumerate(case["may"])):
-        return "C19:auth:same-label-operations-of-two-schemas:%s" % kind
     if kind == "unsound":
         x = obs[o - 1]
         if not 1 <= x <= len(regs):
             return "C19:auth:unsound:several-providers-applied"
         e = regs[x - 1]
+        wrong = [q for q in range(1, len(obs) + 1) if obs[q - 1] == x and case["may"][x - 1][q - 1] == 0]
+        if ops and e["s"] == "global" and all(_twin(ops, q) and case["may"][x - 1][_twin(ops, q) - 1] == 1 for q in wrong):
+            # every wrongly authenticated operation has a same-label twin in the other schema that the provider does apply to
+            return "C19:auth:same-label-operations-of-two-schemas:unsound"
+        if e.get("k", "default") in ("none", "keyed_none"):
+            return "C19:auth:unsound:provider-registered-with-refresh_interval=None"
         first = not any(r["s"] == e["s"] for r in regs[: x - 1])
         return "C19:auth:unsound:%s:%s" % (e["f"], "first" if first else "later-on-same-storage")
+    tw = _twin(ops, o) if ops else 0
+    if tw and any(r[o - 1] == 1 and r[tw - 1] == 0 and regs[p]["s"] == "global" for p, r in enumerate(case["may"])):
+        return "C19:auth:same-label-operations-of-two-schemas:incomplete"
     forms = sorted({regs[p]["f"] for p in range(len(regs)) if case["may"][p][o - 1] == 1})
     return "C19:auth:incomplete:%s" % "+".join(forms)
 
@@ -520,7 +661,7 @@ def _short(events: list[dict]) -> str:
         elif e["ev"] == "reg" and e["f"] == "apply_own":
             parts.append("test:hooks.apply(%s)" % e["n"])
         elif e["ev"] == "areg":
-            parts.append("auth %s:%s[%s]" % (e["s"], e["f"], e["c"]))
+            parts.append("auth %s:%s[%s]%s" % (e["s"], e["f"], e["c"], "" if e.get("k", "-") in ("-", "default") else "{cache=%s}" % e["k"]))
         else:
             parts.append("auth %s.unregister()" % e["s"])
     return " ; ".join(parts)
@@ -707,6 +848,53 @@ def run(ctx: Ctx) -> Outcome:
         samples += [{"history": _short(c["events"]), "expected": c["expect"], "observed": r["obs"]} for c, r in pool]
         del results
 
+    # ---------------- concurrent generation ----------------
+    shared = tlc.require_ok(tlc.run_tlc("HooksConc", "HooksConc_shared.cfg", workers=4, timeout=1200, want_prints=False), "HooksConc (shared context)")
+    if "OwnOperation" not in shared.violated:
+        raise tlc.TLCFailure("vacuity guard: the shared-context design of HooksConc.tla is not refuted by TLC")
+    scheds: list[dict] = []
+    cres = tlc.require_ok(tlc.run_tlc("HooksConc", "HooksConc.cfg", workers=1, timeout=1200, want_prints=False,
+                                      on_json=lambda tag, d: scheds.append(d) if tag == "SCHED" else None), "HooksConc enumeration")
+    spec_violations(cres, "HooksConc")
+    states += cres.distinct + shared.distinct
+    transitions += cres.generated + shared.generated
+    if ctx.quick:
+        scheds = common.sample(rng, scheds, 120)
+    t1 = time.time()
+    cobs = common.pmap(_work_conc, [json.dumps(x) for x in scheds])
+    timings["replay_s:HooksConc.cfg"] = round(time.time() - t1, 1)
+    timings["tlc_s:HooksConc.cfg"] = round(cres.wall_s + shared.wall_s, 1)
+    fam["HooksConc.cfg"] = len(scheds)
+    cfile = ctx.path("conc_obs.json")
+    tlc.write_json(cfile, [{"chain": o["chain"], "threads": o["threads"]} for o in cobs])
+    cj = tlc.require_ok(tlc.run_tlc("HooksConcJudge", "HooksConcJudge.cfg", env={"OBS_FILE": cfile}, timeout=1200), "concurrency judge")
+    c_tlc = {(p[1], p[2], p[3]) for p in cj.prints if isinstance(p, list) and p and p[0] == "DISAGREE"}
+    c_py = {(m, t, k) for m, (sc, ob) in enumerate(zip(scheds, cobs), 1) for t, k in conc_disagreements(sc, ob)}
+    if c_tlc != c_py:
+        raise tlc.TLCFailure("concurrency judge (TLC) and exporter disagree on %d cells: %s" % (len(c_tlc ^ c_py), sorted(c_tlc ^ c_py)[:5]))
+    judged_total += len(cobs)
+    evaluations += len(scheds)
+    nontrivial += sum(1 for o in cobs if o["forced"])
+    timings["judge_s:HooksConc.cfg"] = round(cj.wall_s, 1)
+    n_conc = 0
+    for sc, ob in zip(scheds, cobs):
+        dis = conc_disagreements(sc, ob)
+        if not dis:
+            continue
+        n_dis += 1
+        sig = "C19:concurrent-generation:hook-evaluated-against-another-threads-operation"
+        unconfirmed[sig] = unconfirmed.get(sig, 0) + 1
+        n_conc += 1
+        if n_conc <= 30:
+            out.violations.append(Violation(
+                sig, "two threads generating for operations %s: %s; hook %s_%s with chain %s, thread 1 parked before the %s hooks; per thread "
+                     "(operation of the case, hook applied, operations context.operation pointed to) = %s, expected %s" % (
+                         sc["ops"], sorted(dis), sc["kind"], sc["container"], sc["chain"], sc["parkContainer"],
+                         [(t["op"], t["applied"], t["ctxs"]) for t in ob["threads"]], [(e["op"], e["applied"]) for e in sc["expect"]]),
+                {"kind": "conc", "sched": sc, "ops": cat["ops"]}))
+    samples.append({"concurrent_schedule": {k2: sc[k2] for k2 in ("park", "container", "kind", "chain", "ops")} if scheds else {},
+                    "observed": cobs[-1]["threads"] if cobs else [], "schedules_actually_forced": sum(1 for o in cobs if o["forced"])})
+
     # ---------------- auth ----------------
     for auth_cfg in auth_cfgs:
         res, items, cat = _enumerate("HooksAuth", auth_cfg)
@@ -806,6 +994,8 @@ def run(ctx: Ctx) -> Outcome:
         "two schemas with same-label operations stand for 'several API schemas in one process'; schema- and test-scope extensions "
         "belong to schema A, schema B is generated without a test dispatcher / auth storage",
         "test scope is exercised as the pytest plugin does it: as_strategy(hooks=HookDispatcherMark.get(test), auth_storage=AuthStorageMark.get(test))",
+        "concurrent generation: the interleaving refuted by TLC for a shared context (HooksConc.tla) is forced on two real threads with "
+        "barrier hooks and timeouts; `schedules_actually_forced` counts the runs in which both barriers were reached in the modelled order",
         "auth: which of several applicable providers wins and whether a more specific scope shadows another is not fixed by the property "
         "(judged for soundness only in those histories)",
     ]
@@ -816,6 +1006,13 @@ def replay(ctx: Ctx, data: dict) -> Outcome:
     global _CAT
     out = Outcome()
     if data.get("kind") == "spec":
+        return out
+    if data["kind"] == "conc":
+        _CAT = {"ops": data["ops"]}
+        ob = observe_conc(data["sched"], data["ops"])
+        for t, k in sorted(conc_disagreements(data["sched"], ob)):
+            out.violations.append(Violation("C19:concurrent-generation:hook-evaluated-against-another-threads-operation",
+                                            "thread %d %s: %s" % (t, k, ob["threads"]), data))
         return out
     if data["kind"] == "hooks":
         r = observe_hooks(data["events"], data["ops"], data.get("order", "AB"), fresh=True)
@@ -864,9 +1061,18 @@ def selftest(ctx: Ctx) -> bool:
     cat_res, items, cat = _enumerate("HooksAuth", "HooksAuth_quick.cfg")
     r2 = observe_hooks(concretise(ev, cat), cat["ops"], "BA", fresh=True)
     ok3 = r2["obs"] == good["obs"]
-    if not (ok1 and ok2 and ok3):
-        print("selftest details:", ok1, ok2, ok3, dis, py, adis, r2)
-    return ok1 and ok2 and ok3
+    # concurrency judge: op 1 is selected by C1, op 4 is not; a hook evaluated against the other thread's operation must be rejected
+    okc = {"chain": "C1", "threads": [{"op": 1, "applied": 1, "ctxs": [1]}, {"op": 4, "applied": 0, "ctxs": []}]}
+    badc = {"chain": "C1", "threads": [{"op": 1, "applied": 0, "ctxs": [4]}, {"op": 4, "applied": 0, "ctxs": []}]}
+    tlc.write_json(f, [okc, badc])
+    r = tlc.require_ok(tlc.run_tlc("HooksConcJudge", "HooksConcJudge.cfg", env={"OBS_FILE": f}), "selftest concurrency")
+    cdis = sorted(tuple(p[1:]) for p in r.prints if isinstance(p, list) and p and p[0] == "DISAGREE")
+    ok4 = cdis == [(2, 1, "foreign-context"), (2, 1, "missing")]
+    shared = tlc.require_ok(tlc.run_tlc("HooksConc", "HooksConc_shared.cfg", workers=2, want_prints=False), "selftest shared context")
+    ok4 = ok4 and "OwnOperation" in shared.violated
+    if not (ok1 and ok2 and ok3 and ok4):
+        print("selftest details:", ok1, ok2, ok3, ok4, dis, py, adis, r2, cdis)
+    return ok1 and ok2 and ok3 and ok4
 
 
 def main(argv=None) -> int:
